@@ -68,6 +68,8 @@ type w7Replica struct {
 	delivered map[int32]tlmetadata.Event
 	// names that some delivered metric held and later left (for the failure signature)
 	leftNames map[string]bool
+	// newest delivered version of any metric carrying the name (who claimed the name last)
+	nameClaim map[string]int64
 	reloads   int
 }
 
@@ -229,6 +231,7 @@ func (rep *w7Replica) load(content []byte) error {
 	rep.st = MakeMetricsStorage(nil)
 	rep.delivered = map[int32]tlmetadata.Event{}
 	rep.leftNames = map[string]bool{}
+	rep.nameClaim = map[string]int64{}
 	var err error
 	rep.w.guard("load "+rep.name, func() {
 		rep.j, err = LoadJournalFastSlice(rep.file, 0, rep.compactFlag, []ApplyEvent{rep.apply})
@@ -272,6 +275,9 @@ func (rep *w7Replica) apply(evs []tlmetadata.Event) {
 				}
 			}
 			rep.delivered[int32(e.Id)] = e
+			if e.Version > rep.nameClaim[e.Name] {
+				rep.nameClaim[e.Name] = e.Version
+			}
 		case format.MetricsGroupEvent:
 			hasGroup = true
 		}
